@@ -215,7 +215,7 @@ class Driver:
         if term["act"] == "CrashWrite":
             fname = "backend-tracked.json" if term["file"] == "trk" else "spec-hashes.json"
             occ = 1
-            killenv = {"GWFV_KILL_FILE": fname, "GWFV_KILL_OCC": str(occ), "GWFV_KILL_POS": str(self.rng.choice([0, 0, 1, 2, 99]))}
+            killenv = {"GWFV_KILL_FILE": fname, "GWFV_KILL_OCC": str(occ), "GWFV_KILL_POS": str(self.rng.choice([0, 1, 2, 99, 100, 101, 102, 200, 200, 201]))}
         sb.set_fault(faults)
         self.events.append({"act": "RunBegin", "sel": h["sel"]})
         r, calls, obs = self.observe_cmd(["run"] + self.names(h["sel"]), sub=sub, killenv=killenv)
